@@ -366,6 +366,84 @@ pub fn c13(ctx: &mut Ctx) {
             ctx.stats.sample(json!({"base": name, "seed_digest": image::felt_hex(&d0)}));
         }
     }
+    c13_page_shapes(ctx, &loaded);
+}
+
+/// Statements whose main page is long (beyond any batch size a hashing loop might use) or longer
+/// than the declared number of steps: the digest equals the reference over *all* cells, and cells
+/// at and around block boundaries, beyond the step count and at both ends are bound.
+fn c13_page_shapes(ctx: &mut Ctx, loaded: &[Loaded]) {
+    let scenario = "c13.digest";
+    let Some(l) = loaded.first() else { return };
+    let nvf = image::felt_of(&l.proof["config"]["n_verifier_friendly_commitment_layers"]).unwrap();
+    for p in ["page-longer-than-steps", "page-longer-than-1024", "page-longer-than-4096"] {
+        ctx.stats.declare_probe(p);
+    }
+    let lens: &[usize] = if ctx.is_quick() { &[40, 1024, 1025, 1030, 2051] } else { &[40, 255, 256, 257, 1023, 1024, 1025, 1030, 2049, 2051, 3076, 4097, 8200] };
+    let mut unit = 50_000u64;
+    for (si, &n) in lens.iter().enumerate() {
+        for log_steps in [0u64, 3, 5, 14] {
+            let mine = ctx.mine(unit);
+            unit += 1;
+            if !mine {
+                continue;
+            }
+            ctx.begin_run(scenario, unit);
+            let mut rng = Rng::derive(ctx.seed, "c13.page-shapes", (si as u64) << 8 | log_steps);
+            let mut pi = l.proof["public_input"].clone();
+            pi["main_page"] = json!((0..n).map(|i| json!({"address": image::felt_hex(&Felt::from(1 + i as u64)), "value": image::felt_hex(&rng.felt())})).collect::<Vec<_>>());
+            pi["log_n_steps"] = json!(image::felt_hex(&Felt::from(log_steps)));
+            if (n as u64) > (1 << log_steps) {
+                ctx.stats.probe("page-longer-than-steps");
+            }
+            if n > 1024 {
+                ctx.stats.probe("page-longer-than-1024");
+            }
+            if n > 4096 {
+                ctx.stats.probe("page-longer-than-4096");
+            }
+            let name = format!("synthetic:page{n}:log_n_steps{log_steps}");
+            let mk = |ctx: &Ctx, faults: &[Fault], what: &str| replay_envelope("C13", scenario, &ctx.variant, json!({"call": "digest", "public_input": pi, "n_friendly": image::felt_hex(&nvf), "faults": faults, "oracle": what}));
+            let Some((_, Some(d0))) = digest_of(&pi, nvf) else {
+                ctx.violation("C13|digest-fails", &format!("get_hash failed on {name}"), mk(ctx, &[], "digest-fails"));
+                continue;
+            };
+            ctx.stats.evaluations += 1;
+            let pi_t: PublicInput = serde_json::from_value(pi.clone()).unwrap();
+            let want = models_full::ref_digest(&pi_t, nvf);
+            ctx.stats.state(format!("page-shape|len{}|steps{log_steps}|{}", n, want == d0));
+            if want != d0 {
+                ctx.violation("C13|model-mismatch", &format!("{name}: get_hash = {:#x}, protocol reference = {:#x}", d0, want), mk(ctx, &[], "model-mismatch"));
+                continue;
+            }
+            let mut idx: Vec<usize> = vec![0, n - 1, n / 2, (1usize << log_steps).min(n - 1), (1usize << log_steps).saturating_sub(1).min(n - 1)];
+            for b in [256usize, 1024, 2048, 2049, 3074, 4096] {
+                for d in [0usize, 1] {
+                    if b + d < n {
+                        idx.push(b + d);
+                    }
+                    if b >= 1 + d && b - 1 - d < n {
+                        idx.push(b - 1 - d);
+                    }
+                }
+            }
+            idx.sort();
+            idx.dedup();
+            for i in idx {
+                for field in ["address", "value"] {
+                    let path = format!("main_page[{i}].{field}");
+                    let old = image::felt_of(&pi["main_page"][i][field]).unwrap();
+                    let f = Fault::Set { path: path.clone(), value: image::felt_hex(&(old + Felt::ONE)) };
+                    let Some(img) = proofrun::apply_faults(&pi, std::slice::from_ref(&f)) else { continue };
+                    ctx.stats.evaluations += 1;
+                    ctx.stats.fired("field");
+                    if digest_of(&img, nvf).and_then(|x| x.1) == Some(d0) {
+                        ctx.violation(&format!("C13|unbound|field:main_page[].{field}"), &format!("{name}: {f:?} leaves the transcript seed unchanged"), mk(ctx, &[f], "unbound"));
+                    }
+                }
+            }
+        }
+    }
 }
 
 // ------------------------------------------------------------------------------------------
